@@ -28,6 +28,13 @@ def gen_wave_case(rng, **kw):
     k.strip = kw.get('strip', rng.random() < kw['strip_prob'] if 'strip_prob' in kw else False)
     k.sims = kw.get('sims', rng.choice([1, 2, 3, 5]))
     k.delays, k.style = wc.gen_delays(rng, len(k.c.lines), kw.get('style'))
+    if k.strip and len(k.c.lines) % 3 != 0:
+        # two thirds of the stripped cases: zero delay on fork inputs (the side condition under which strip_forks is proved not to
+        # change results, C03_wavesim_model_correct / C06_wave_strip_forks_irrelevant); decided without consuming the generator stream
+        for f in k.c.forks.values():
+            for l in f.ins:
+                if l is not None:
+                    k.delays[l.index] = 0
     capmode = kw.get('capmode', rng.choice(['4', '8', '16', 'vec', 'vec']))
     if capmode == 'skew':
         k.caps = [4 if rng.random() < (0.4 if i < 10 else 0.08) else rng.choice([16, 24, 32]) for i in range(len(k.c.lines))]
@@ -109,11 +116,12 @@ def warm_replay(d):
         return True
 
 
-def campaign(ck, n, oracle, gen_kw=None, coq_lanes=1, label='WaveSim', coq_every=1, stress_every=0, line_level=False):
+def campaign(ck, n, oracle, gen_kw=None, coq_lanes=1, label='WaveSim', coq_every=1, stress_every=0, line_level=False, glue=False):
     """oracle(k, w) -> None | failure text.  Returns (fails, mismatching metas)."""
     rng = random.Random(ck.seed * 7919 + sum(map(ord, ck.pid)))
     fails, coq_cases, meta = [], [], []
     line_cases, line_meta = [], []
+    glue_cases, glue_meta = [], []
     stats = {'overflowing_waveforms': 0, 'waveforms': 0, 'finite_transitions': 0}
     for i in range(n):
         kw = dict(gen_kw or {})
@@ -157,6 +165,9 @@ def campaign(ck, n, oracle, gen_kw=None, coq_lanes=1, label='WaveSim', coq_every
                 if line_level and not k.strip:
                     line_cases.append(wc.coq_line_case(k.c, k.caps, k.reuse, k.strip, k.delays, w, lane, k.s0, k.s1, k.s2, k.extra))
                     line_meta.append(describe(k))
+                if glue:
+                    glue_cases.append(wc.coq_glue_case(k.c, k.caps, k.strip, k.delays, w, lane, k.s0, k.s1, k.s2, k.extra, k.tcap, a_ctrl=k.a_ctrl))
+                    glue_meta.append(describe(k))
         if i < 2:
             ck.sample({'nodes': len(k.c.nodes), 'lines': len(k.c.lines), 'delay_style': k.style, 'c_caps': str(k.caps)[:40],
                        'sims': k.sims, 'c_reuse': k.reuse, 'capture_time': k.tcap,
@@ -180,7 +191,44 @@ def campaign(ck, n, oracle, gen_kw=None, coq_lanes=1, label='WaveSim', coq_every
              'IEEE float32/float64 arithmetic of the pure-Python kernels is exact on the integer grid |t| < 2^24 and the sentinels '
              '-2^127, 2^127, 1.1*2^127 absorb finite delays (extended-integer model of time); off-grid rounding is not modelled')
     line_mism = line_level_eval(ck, line_cases, line_meta) if line_level else []
-    return fails, [meta[j] for j in mism] + line_mism
+    glue_mism = glue_level_eval(ck, glue_cases, glue_meta) if glue else []
+    return fails, [meta[j] for j in mism] + line_mism + glue_mism
+
+
+def glue_level_eval(ck, glue_cases, glue_meta, tag='wg'):
+    """Evaluates wglue_case (Proofs/WaveSimGlue.v): the hypotheses of wavesim_model_correct per case, and inside the proved domain the
+    theorem's prediction against what the implementation captured / accumulated.  Returns the metas of disagreeing cases."""
+    chunks = [glue_cases[i:i + 12] for i in range(0, len(glue_cases), 12)]
+    outs = ck.coq_eval_many(tag, [wc.glue_cases_file(ch) for ch in chunks], jobs=12)
+    codes_of, allok = {}, True
+    for ci, (ok, out) in enumerate(outs):
+        codes = cg.parse_nat_list(out) if ok else None
+        if codes is None:
+            allok = False
+            ck.obligation('evaluation of the end-to-end statement (wglue_case) ran', False, 'correspondence', out[-800:])
+            continue
+        for code in codes:
+            codes_of[ci * 12 + code // 32] = code % 32
+    outside = [i for i, code in codes_of.items() if code & 1]
+    inside = [i for i in range(len(glue_cases)) if i not in outside]
+    ck.count(len(inside), 'end-to-end-inside-proved-domain')
+    ck.count(len(outside), 'end-to-end-outside-proved-domain')
+    for i in inside:
+        m = glue_meta[i]
+        ck.count(1, f'end-to-end-domain c_reuse={m["c_reuse"]} strip_forks={m["strip_forks"]}')
+    bad = {i: code for i, code in codes_of.items() if code & 6}
+    ns = sum(1 for i in inside if glue_meta[i]['strip_forks'])
+    nr = sum(1 for i in inside if glue_meta[i]['c_reuse'])
+    for j in (1, 2):
+        hit = [i for i, code in bad.items() if code >> j & 1]
+        ck.obligation(f'{wc.GLUE_CHECKS[j]}: {len(inside)} lanes inside the proved domain ({nr} with c_reuse, {ns} with strip_forks; '
+                      f'{len(outside)} outside)', allok and not hit, 'correspondence', f'failing cases {hit[:10]}')
+    out = []
+    for i in sorted(bad):
+        m = dict(glue_meta[i])
+        m['glue_failed'] = [wc.GLUE_CHECKS[j] for j in (1, 2) if bad[i] >> j & 1]
+        out.append(m)
+    return out
 
 
 def line_level_eval(ck, line_cases, line_meta):
@@ -215,6 +263,11 @@ def report(ck, fails, mism, prefix, component):
         ck.fail(f'{prefix}', f'{component}: ' + what, {'component': component, 'input': desc, 'actual': what})
     if not fails:
         for m in mism[:3]:
+            if 'glue_failed' in m:
+                ck.fail('end-to-end-disagrees', 'the proved end-to-end statement (wavesim_model_correct) and the implementation disagree: ' + '; '.join(m['glue_failed']),
+                        {'component': 'wave_sim.WaveSim / sim.SimOps (memory map, capture)', 'input': m, 'broken': ['correspondence end to end (wglue_case)']},
+                        found_input=False)
+                continue
             if 'line_level_failed' in m:
                 ck.fail('line-level-disagrees', 'line-level semantics and implementation disagree: ' + '; '.join(m['line_level_failed']),
                         {'component': 'Model/WaveOps.v, Model/WaveAcc.v', 'input': m, 'broken': ['correspondence line level (wexec / wacc)']},
